@@ -28,7 +28,7 @@ ASSUMPTIONS = [
 
 def plan(tier, seed):
     n = 14 if tier == "quick" else 46
-    return [{"n": 1200 if tier == "quick" else 5000} for _ in range(n)]
+    return [{"n": 1200 if tier == "quick" else 15000} for _ in range(n)]
 
 
 class _B(dict):
